@@ -11,3 +11,9 @@ pub fn base_instant() -> Instant {
 pub fn at(t0: Instant, secs: u64, nanos: u32) -> Instant {
     t0 + Duration::new(secs, nanos)
 }
+
+/// Stub for std::hash::RandomState::new (HashMap `anymap` in Core::new): the real one reads thread-local keys
+/// seeded by getrandom, which Kani cannot compile.  The anymap is not under test.
+pub fn fixed_random_state() -> std::hash::RandomState {
+    unsafe { std::mem::transmute::<[u64; 2], std::hash::RandomState>([0x1234_5678, 0x9abc_def0]) }
+}
